@@ -1,11 +1,1177 @@
-//! C16 — (not built yet)
-#![allow(unused_imports, unused_variables, dead_code)]
+//! C16 — JSON conversion is valid JSON and carries the document's content.
+//!
+//! op: `json <opts> <enc> <entry> <tape> <hex>`
+//!   opts  = [m|p][g|p|k][a|u|n]  minified/pretty, Group/Preserve/KeyValuePairs, All/Unquoted/None
+//!   enc   = w | u                Windows-1252 / UTF-8 reader
+//!   entry = obj | arr | val      whole document / `read_array()` of the first field's value / that value
+//!   tape  = show.rs `text_tape` of the tape the REAL parser produced (this is what the model converts)
+//!   hex   = the input bytes (so the case replays on the real code)
+//! result: hex of the output with every float token replaced by `f<bits>` | na | panic
+//!
+//! L3 oracles (implementation only): strict RFC 8259 validity + UTF-8, pretty == minified
+//! modulo insignificant whitespace, content against an independent transcription of the DOM
+//! readers, no panic for any of the 108 option/encoding combinations.
+#![allow(dead_code)]
 use crate::common::*;
+use crate::docgen;
+use crate::show;
+use jomini::json::{DuplicateKeyMode, JsonOptions, TypeNarrowing};
+use jomini::text::{ArrayReader, ObjectReader, Operator, ValueReader};
+use jomini::{Encoding, TextTape, TextToken, Utf8Encoding, Windows1252Encoding};
 
-pub fn gen(g: &mut Gen) {}
+// ---------------------------------------------------------------------------------------
+// options
+
+#[derive(Clone, Copy, PartialEq, Eq, Debug)]
+struct Opts {
+    pretty: bool,
+    dup: u8,    // b'g' | b'p' | b'k'
+    narrow: u8, // b'a' | b'u' | b'n'
+}
+
+impl Opts {
+    fn parse(s: &str) -> Option<Opts> {
+        let b = s.as_bytes();
+        if b.len() != 3 || !b"mp".contains(&b[0]) || !b"gpk".contains(&b[1]) || !b"aun".contains(&b[2]) {
+            return None;
+        }
+        Some(Opts { pretty: b[0] == b'p', dup: b[1], narrow: b[2] })
+    }
+    fn show(&self) -> String {
+        format!("{}{}{}", if self.pretty { 'p' } else { 'm' }, self.dup as char, self.narrow as char)
+    }
+    fn json(&self) -> JsonOptions {
+        JsonOptions::new()
+            .with_prettyprint(self.pretty)
+            .with_duplicate_keys(match self.dup {
+                b'g' => DuplicateKeyMode::Group,
+                b'p' => DuplicateKeyMode::Preserve,
+                _ => DuplicateKeyMode::KeyValuePairs,
+            })
+            .with_type_narrowing(match self.narrow {
+                b'a' => TypeNarrowing::All,
+                b'u' => TypeNarrowing::Unquoted,
+                _ => TypeNarrowing::None,
+            })
+    }
+    fn all() -> Vec<Opts> {
+        let mut v = vec![];
+        for pretty in [false, true] {
+            for dup in *b"gpk" {
+                for narrow in *b"aun" {
+                    v.push(Opts { pretty, dup, narrow });
+                }
+            }
+        }
+        v
+    }
+}
+
+// ---------------------------------------------------------------------------------------
+// running the real code
+
+/// Some(bytes) | None = entry point not applicable
+fn run_json<E: Encoding + Clone>(reader: &ObjectReader<E>, o: Opts, entry: &str) -> Option<Vec<u8>> {
+    match entry {
+        "obj" => Some(reader.json().with_options(o.json()).to_vec()),
+        "val" => {
+            let (_k, _op, v) = reader.fields().next()?;
+            Some(v.json().with_options(o.json()).to_vec())
+        }
+        "arr" => {
+            let (_k, _op, v) = reader.fields().next()?;
+            let a = v.read_array().ok()?;
+            Some(a.json().with_options(o.json()).to_vec())
+        }
+        _ => None,
+    }
+}
+
+fn run_enc(tape: &TextTape, enc: &str, o: Opts, entry: &str) -> Option<Vec<u8>> {
+    if enc == "w" {
+        run_json(&tape.windows1252_reader(), o, entry)
+    } else {
+        run_json(&tape.utf8_reader(), o, entry)
+    }
+}
+
+// ---------------------------------------------------------------------------------------
+// lexical passes over JSON text (string-aware)
+
+/// replace every number token that contains '.', 'e' or 'E' by `f<bits of its f64 value>`
+fn canon_floats(out: &[u8]) -> Vec<u8> {
+    let mut r = Vec::with_capacity(out.len());
+    let mut i = 0;
+    while i < out.len() {
+        let b = out[i];
+        if b == b'"' {
+            r.push(b);
+            i += 1;
+            while i < out.len() {
+                let c = out[i];
+                r.push(c);
+                i += 1;
+                if c == b'\\' {
+                    if i < out.len() {
+                        r.push(out[i]);
+                        i += 1;
+                    }
+                } else if c == b'"' {
+                    break;
+                }
+            }
+        } else if b == b'-' || b.is_ascii_digit() {
+            let st = i;
+            while i < out.len() && (out[i].is_ascii_digit() || matches!(out[i], b'-' | b'+' | b'.' | b'e' | b'E')) {
+                i += 1;
+            }
+            let tok = &out[st..i];
+            if tok.iter().any(|c| matches!(c, b'.' | b'e' | b'E')) {
+                match std::str::from_utf8(tok).ok().and_then(|s| s.parse::<f64>().ok()) {
+                    Some(f) => r.extend_from_slice(format!("f{}", f.to_bits()).as_bytes()),
+                    None => r.extend_from_slice(tok),
+                }
+            } else {
+                r.extend_from_slice(tok);
+            }
+        } else {
+            r.push(b);
+            i += 1;
+        }
+    }
+    r
+}
+
+/// drop space, \n, \r, \t outside strings
+fn strip_ws(out: &[u8]) -> Vec<u8> {
+    let mut r = Vec::with_capacity(out.len());
+    let mut i = 0;
+    while i < out.len() {
+        let b = out[i];
+        if b == b'"' {
+            r.push(b);
+            i += 1;
+            while i < out.len() {
+                let c = out[i];
+                r.push(c);
+                i += 1;
+                if c == b'\\' {
+                    if i < out.len() {
+                        r.push(out[i]);
+                        i += 1;
+                    }
+                } else if c == b'"' {
+                    break;
+                }
+            }
+        } else {
+            if !matches!(b, b' ' | b'\n' | b'\r' | b'\t') {
+                r.push(b);
+            }
+            i += 1;
+        }
+    }
+    r
+}
+
+// ---------------------------------------------------------------------------------------
+// strict RFC 8259 parser: order- and duplicate-preserving tree
+
+#[derive(Clone, Debug, PartialEq)]
+enum J {
+    Null,
+    Bool(bool),
+    /// the number token as written
+    Num(String),
+    Str(String),
+    Arr(Vec<J>),
+    Obj(Vec<(String, J)>),
+}
+
+struct P<'a> {
+    s: &'a [u8],
+    i: usize,
+    depth: usize,
+}
+
+impl<'a> P<'a> {
+    fn ws(&mut self) {
+        while self.i < self.s.len() && matches!(self.s[self.i], b' ' | b'\n' | b'\r' | b'\t') {
+            self.i += 1;
+        }
+    }
+    fn peek(&self) -> Option<u8> {
+        self.s.get(self.i).copied()
+    }
+    fn lit(&mut self, l: &[u8]) -> Result<(), String> {
+        if self.s[self.i..].starts_with(l) {
+            self.i += l.len();
+            Ok(())
+        } else {
+            Err(format!("bad literal at {}", self.i))
+        }
+    }
+    fn value(&mut self) -> Result<J, String> {
+        self.depth += 1;
+        if self.depth > 5000 {
+            return Err("too deep".into());
+        }
+        let r = match self.peek() {
+            None => Err(format!("unexpected end at {}", self.i)),
+            Some(b'n') => self.lit(b"null").map(|_| J::Null),
+            Some(b't') => self.lit(b"true").map(|_| J::Bool(true)),
+            Some(b'f') => self.lit(b"false").map(|_| J::Bool(false)),
+            Some(b'"') => self.string().map(J::Str),
+            Some(b'[') => {
+                self.i += 1;
+                let mut v = vec![];
+                self.ws();
+                if self.peek() == Some(b']') {
+                    self.i += 1;
+                    Ok(J::Arr(v))
+                } else {
+                    loop {
+                        self.ws();
+                        v.push(self.value()?);
+                        self.ws();
+                        match self.peek() {
+                            Some(b',') => self.i += 1,
+                            Some(b']') => {
+                                self.i += 1;
+                                break;
+                            }
+                            _ => return Err(format!("expected , or ] at {}", self.i)),
+                        }
+                    }
+                    Ok(J::Arr(v))
+                }
+            }
+            Some(b'{') => {
+                self.i += 1;
+                let mut v = vec![];
+                self.ws();
+                if self.peek() == Some(b'}') {
+                    self.i += 1;
+                    Ok(J::Obj(v))
+                } else {
+                    loop {
+                        self.ws();
+                        if self.peek() != Some(b'"') {
+                            return Err(format!("expected key at {}", self.i));
+                        }
+                        let k = self.string()?;
+                        self.ws();
+                        if self.peek() != Some(b':') {
+                            return Err(format!("expected : at {}", self.i));
+                        }
+                        self.i += 1;
+                        self.ws();
+                        let val = self.value()?;
+                        v.push((k, val));
+                        self.ws();
+                        match self.peek() {
+                            Some(b',') => self.i += 1,
+                            Some(b'}') => {
+                                self.i += 1;
+                                break;
+                            }
+                            _ => return Err(format!("expected , or }} at {}", self.i)),
+                        }
+                    }
+                    Ok(J::Obj(v))
+                }
+            }
+            Some(b'-') | Some(b'0'..=b'9') => self.number(),
+            Some(c) => Err(format!("unexpected byte {:#x} at {}", c, self.i)),
+        };
+        self.depth -= 1;
+        r
+    }
+    /// number = [ minus ] int [ frac ] [ exp ]
+    fn number(&mut self) -> Result<J, String> {
+        let st = self.i;
+        if self.peek() == Some(b'-') {
+            self.i += 1;
+        }
+        match self.peek() {
+            Some(b'0') => self.i += 1,
+            Some(b'1'..=b'9') => {
+                while matches!(self.peek(), Some(b'0'..=b'9')) {
+                    self.i += 1;
+                }
+            }
+            _ => return Err(format!("bad number at {}", self.i)),
+        }
+        if self.peek() == Some(b'.') {
+            self.i += 1;
+            if !matches!(self.peek(), Some(b'0'..=b'9')) {
+                return Err(format!("bad fraction at {}", self.i));
+            }
+            while matches!(self.peek(), Some(b'0'..=b'9')) {
+                self.i += 1;
+            }
+        }
+        if matches!(self.peek(), Some(b'e') | Some(b'E')) {
+            self.i += 1;
+            if matches!(self.peek(), Some(b'+') | Some(b'-')) {
+                self.i += 1;
+            }
+            if !matches!(self.peek(), Some(b'0'..=b'9')) {
+                return Err(format!("bad exponent at {}", self.i));
+            }
+            while matches!(self.peek(), Some(b'0'..=b'9')) {
+                self.i += 1;
+            }
+        }
+        Ok(J::Num(String::from_utf8(self.s[st..self.i].to_vec()).unwrap()))
+    }
+    fn hex4(&mut self) -> Result<u32, String> {
+        if self.i + 4 > self.s.len() {
+            return Err("short \\u".into());
+        }
+        let mut v = 0u32;
+        for k in 0..4 {
+            let d = (self.s[self.i + k] as char).to_digit(16).ok_or_else(|| format!("bad \\u digit at {}", self.i + k))?;
+            v = v * 16 + d;
+        }
+        self.i += 4;
+        Ok(v)
+    }
+    fn string(&mut self) -> Result<String, String> {
+        // opening quote
+        self.i += 1;
+        let mut out: Vec<u8> = vec![];
+        loop {
+            let c = match self.peek() {
+                None => return Err("unterminated string".into()),
+                Some(c) => c,
+            };
+            self.i += 1;
+            match c {
+                b'"' => break,
+                0..=0x1f => return Err(format!("raw control byte {:#x} in string at {}", c, self.i - 1)),
+                b'\\' => {
+                    let e = self.peek().ok_or("dangling backslash")?;
+                    self.i += 1;
+                    match e {
+                        b'"' => out.push(b'"'),
+                        b'\\' => out.push(b'\\'),
+                        b'/' => out.push(b'/'),
+                        b'b' => out.push(8),
+                        b'f' => out.push(12),
+                        b'n' => out.push(10),
+                        b'r' => out.push(13),
+                        b't' => out.push(9),
+                        b'u' => {
+                            let hi = self.hex4()?;
+                            let cp = if (0xD800..0xDC00).contains(&hi) {
+                                if self.s[self.i..].starts_with(b"\\u") {
+                                    self.i += 2;
+                                    let lo = self.hex4()?;
+                                    if !(0xDC00..0xE000).contains(&lo) {
+                                        return Err("bad low surrogate".into());
+                                    }
+                                    0x10000 + ((hi - 0xD800) << 10) + (lo - 0xDC00)
+                                } else {
+                                    return Err("lone high surrogate".into());
+                                }
+                            } else if (0xDC00..0xE000).contains(&hi) {
+                                return Err("lone low surrogate".into());
+                            } else {
+                                hi
+                            };
+                            let ch = char::from_u32(cp).ok_or("bad code point")?;
+                            let mut buf = [0u8; 4];
+                            out.extend_from_slice(ch.encode_utf8(&mut buf).as_bytes());
+                        }
+                        _ => return Err(format!("bad escape \\{} at {}", e as char, self.i - 1)),
+                    }
+                }
+                _ => out.push(c),
+            }
+        }
+        String::from_utf8(out).map_err(|_| "string is not UTF-8".to_string())
+    }
+}
+
+/// strict parse of a complete JSON text (nothing but whitespace after the value)
+fn parse_json(s: &[u8]) -> Result<J, String> {
+    if std::str::from_utf8(s).is_err() {
+        return Err("output is not valid UTF-8".into());
+    }
+    let mut p = P { s, i: 0, depth: 0 };
+    p.ws();
+    let v = p.value()?;
+    p.ws();
+    if p.i != s.len() {
+        return Err(format!("trailing bytes at {}", p.i));
+    }
+    Ok(v)
+}
+
+// ---------------------------------------------------------------------------------------
+// content reference: an independent transcription from the DOM readers
+
+/// Behaviours of the real code that the strict reference does not share.  The content oracle
+/// first compares against the strict reference; when that fails it looks for the smallest set
+/// of these that explains the output and reports exactly those kinds (known findings), so that
+/// anything else still alarms as `content-structure` / `content-scalar`.
+#[derive(Clone, Copy, Debug, Default, PartialEq)]
+struct Quirks {
+    /// Group mode keys the groups by the RAW key bytes (`field_groups`), not by the key as it
+    /// appears in the JSON: `[[x] ..]` and `[[!x] ..]` and `x` merge under the first one's
+    /// name, while `"a "` and `a` (same JSON key after trimming) stay apart
+    group_raw_key: bool,
+    /// the scalar `+` converts to the number 0 (`to_i64(b"+") == Ok(0)`)
+    plus_is_zero: bool,
+    /// `read_array()` of a header value is the two-element view [header, body]; its JSON
+    /// renders the header element as `{header: body}` AND the body again
+    header_view_dup: bool,
+}
+
+impl Quirks {
+    fn kinds(&self) -> Vec<&'static str> {
+        let mut v = vec![];
+        if self.group_raw_key { v.push("group-keyed-by-raw-bytes"); }
+        if self.plus_is_zero { v.push("plus-sign-narrowed-to-zero"); }
+        if self.header_view_dup { v.push("header-array-view-duplicates-body"); }
+        v
+    }
+    fn subsets() -> Vec<Quirks> {
+        let mut v = vec![];
+        for n in 1..8u8 {
+            v.push(Quirks { group_raw_key: n & 1 != 0, plus_is_zero: n & 2 != 0, header_view_dup: n & 4 != 0 });
+        }
+        v.sort_by_key(|q| q.kinds().len());
+        v
+    }
+}
+
+#[derive(Clone, Debug)]
+enum Ref {
+    /// a scalar value subject to the narrowing rule
+    Scalar { raw: Vec<u8>, text: String, quoted: bool },
+    Null,
+    Str(String),
+    Arr(Vec<Ref>),
+    Obj(Vec<(String, Ref)>),
+}
+
+fn op_json_name(o: Operator) -> &'static str {
+    match o {
+        Operator::LessThan => "LESS_THAN",
+        Operator::LessThanEqual => "LESS_THAN_EQUAL",
+        Operator::GreaterThan => "GREATER_THAN",
+        Operator::GreaterThanEqual => "GREATER_THAN_EQUAL",
+        Operator::NotEqual => "NOT_EQUAL",
+        Operator::Exact => "EXACT",
+        Operator::Equal => "EQUAL",
+        Operator::Exists => "EXISTS",
+    }
+}
+
+fn wrap_op(op: Option<Operator>, v: Ref) -> Ref {
+    match op {
+        Some(o) => Ref::Obj(vec![(op_json_name(o).to_string(), v)]),
+        None => v,
+    }
+}
+
+fn ref_value<E: Encoding + Clone>(v: &ValueReader<E>, dup: u8, q: Quirks, depth: usize) -> Ref {
+    if depth > 2000 {
+        return Ref::Null;
+    }
+    match v.token() {
+        TextToken::Unquoted(s) => Ref::Scalar { raw: s.as_bytes().to_vec(), text: v.read_string().unwrap(), quoted: false },
+        TextToken::Quoted(s) => Ref::Scalar { raw: s.as_bytes().to_vec(), text: v.read_string().unwrap(), quoted: true },
+        TextToken::Array { .. } => ref_array(&v.read_array().unwrap(), dup, q, depth + 1),
+        TextToken::Object { .. } => ref_object(&v.read_object().unwrap(), dup, q, depth + 1),
+        TextToken::Header(_) => {
+            // a header is a single-entry object { header: body }
+            let a = v.read_array().unwrap();
+            let items: Vec<_> = a.values().collect();
+            if items.len() == 2 {
+                Ref::Obj(vec![(items[0].read_string().unwrap(), ref_value(&items[1], dup, q, depth + 1))])
+            } else {
+                Ref::Null
+            }
+        }
+        _ => Ref::Null,
+    }
+}
+
+/// the items of an array reader: bare values; `key op value` runs (mixed containers) become
+/// single-entry objects; a header takes the following container as its body
+fn ref_items<E: Encoding + Clone>(a: &ArrayReader<E>, dup: u8, q: Quirks, depth: usize) -> Vec<Ref> {
+    let vals: Vec<ValueReader<E>> = a.values().filter(|v| v.token() != &TextToken::MixedContainer).collect();
+    let mut out = vec![];
+    let mut i = 0;
+    while i < vals.len() {
+        let cur = &vals[i];
+        if let (Some(opr), Some(val)) = (vals.get(i + 1), vals.get(i + 2)) {
+            if let TextToken::Operator(op) = opr.token() {
+                let key = cur.read_string().unwrap_or_else(|_| "__invalid_key".to_string());
+                let op = if *op == Operator::Equal { None } else { Some(*op) };
+                out.push(Ref::Obj(vec![(key, wrap_op(op, ref_value(val, dup, q, depth)))]));
+                // a header value brings its body along
+                i += 3;
+                if matches!(val.token(), TextToken::Header(_)) && !q.header_view_dup {
+                    i += 1;
+                }
+                continue;
+            }
+        }
+        out.push(ref_value(cur, dup, q, depth));
+        i += 1;
+        if matches!(cur.token(), TextToken::Header(_)) && !q.header_view_dup {
+            i += 1;
+        }
+    }
+    out
+}
+
+fn ref_array<E: Encoding + Clone>(a: &ArrayReader<E>, dup: u8, q: Quirks, depth: usize) -> Ref {
+    let items = Ref::Arr(ref_items(a, dup, q, depth));
+    if dup == b'k' {
+        Ref::Obj(vec![("type".into(), Ref::Str("array".into())), ("val".into(), items)])
+    } else {
+        items
+    }
+}
+
+fn key_text<E: Encoding>(k: &jomini::text::ScalarReader<E>) -> String {
+    match k.token() {
+        TextToken::Parameter(_) => format!("[{}]", k.read_str()),
+        TextToken::UndefinedParameter(_) => format!("[!{}]", k.read_str()),
+        _ => k.read_string(),
+    }
+}
+
+fn ref_object<E: Encoding + Clone>(o: &ObjectReader<E>, dup: u8, q: Quirks, depth: usize) -> Ref {
+    let mut fields = o.fields();
+    let mut entries: Vec<(String, Ref)> = vec![];
+    let mut raw_keys: Vec<Vec<u8>> = vec![];
+    for (k, op, v) in fields.by_ref() {
+        entries.push((key_text(&k), wrap_op(op, ref_value(&v, dup, q, depth))));
+        raw_keys.push(k.read_scalar().as_bytes().to_vec());
+    }
+    let rest = fields.remainder();
+    let rest_items = if rest.is_empty() { None } else { Some(ref_items(&rest, dup, q, depth)) };
+    match dup {
+        b'p' => {
+            if let Some(r) = rest_items {
+                entries.push(("remainder".into(), Ref::Arr(r)));
+            }
+            Ref::Obj(entries)
+        }
+        b'g' => {
+            // each distinct key once, in order of first appearance; one value -> the value,
+            // several -> the array of the values in order
+            let mut keys: Vec<String> = vec![];
+            let mut ids: Vec<Vec<u8>> = vec![];
+            let mut groups: Vec<Vec<Ref>> = vec![];
+            for ((k, v), raw) in entries.into_iter().zip(raw_keys) {
+                let id = if q.group_raw_key { raw } else { k.as_bytes().to_vec() };
+                match ids.iter().position(|x| *x == id) {
+                    Some(p) => groups[p].push(v),
+                    None => {
+                        keys.push(k);
+                        ids.push(id);
+                        groups.push(vec![v]);
+                    }
+                }
+            }
+            let mut out: Vec<(String, Ref)> = keys
+                .into_iter()
+                .zip(groups)
+                .map(|(k, mut g)| if g.len() == 1 { (k, g.pop().unwrap()) } else { (k, Ref::Arr(g)) })
+                .collect();
+            if let Some(r) = rest_items {
+                out.push(("remainder".into(), Ref::Arr(r)));
+            }
+            Ref::Obj(out)
+        }
+        _ => {
+            let mut pairs: Vec<Ref> = entries.into_iter().map(|(k, v)| Ref::Arr(vec![Ref::Str(k), v])).collect();
+            if let Some(r) = rest_items {
+                pairs.push(Ref::Arr(r));
+            }
+            Ref::Obj(vec![("type".into(), Ref::Str("obj".into())), ("val".into(), Ref::Arr(pairs))])
+        }
+    }
+}
+
+// the narrowing rule, from the documentation: booleans are `yes`/`no`; numbers are
+// narrowed when f64 holds them exactly, anything else stays the (decoded) string
+
+const EXACT: u128 = 1u128 << 53;
+
+struct NumShape {
+    neg: bool,
+    /// all digits read as one integer (saturating)
+    digits_int: u128,
+    frac_len: usize,
+    has_dot: bool,
+    /// `-?digits` or `-?digits.digits{1,22}`: what a writer emits
+    clean: bool,
+    /// body without signs, leading "0" added when it starts with '.'
+    body: String,
+}
+
+fn num_shape(raw: &[u8]) -> Option<NumShape> {
+    if raw.is_empty() || !raw.iter().all(|b| b.is_ascii_digit() || matches!(b, b'+' | b'-' | b'.')) {
+        return None;
+    }
+    if raw.iter().enumerate().any(|(i, b)| matches!(b, b'+' | b'-') && i > 1) {
+        return None;
+    }
+    let dots = raw.iter().filter(|b| **b == b'.').count();
+    let digits: Vec<u8> = raw.iter().copied().filter(|b| b.is_ascii_digit()).collect();
+    if dots > 1 || digits.is_empty() {
+        return None;
+    }
+    let signs = raw.iter().filter(|b| matches!(b, b'+' | b'-')).count();
+    let mut di: u128 = 0;
+    for d in &digits {
+        di = di.saturating_mul(10).saturating_add((d - b'0') as u128).min(u128::MAX / 16);
+    }
+    let body: Vec<u8> = raw.iter().copied().filter(|b| !matches!(b, b'+' | b'-')).collect();
+    let dot = body.iter().position(|b| *b == b'.');
+    let frac_len = dot.map(|p| body.len() - p - 1).unwrap_or(0);
+    let int_len = dot.unwrap_or(body.len());
+    let clean = (signs == 0 || (signs == 1 && raw[0] == b'-')) && int_len >= 1 && (dot.is_none() || (1..=22).contains(&frac_len));
+    let mut b = String::from_utf8(body).unwrap();
+    if b.starts_with('.') {
+        b = format!("0{}", b);
+    }
+    if b.ends_with('.') {
+        b.push('0');
+    }
+    Some(NumShape { neg: raw[0] == b'-', digits_int: di, frac_len, has_dot: dots == 1, clean, body: b })
+}
+
+fn ulp_distance(a: f64, b: f64) -> u64 {
+    let (x, y) = (a.to_bits() as i64, b.to_bits() as i64);
+    let key = |v: i64| if v < 0 { i64::MIN.wrapping_sub(v) } else { v };
+    (key(x) as i128 - key(y) as i128).unsigned_abs() as u64
+}
+
+fn check_scalar(raw: &[u8], text: &str, quoted: bool, narrow: u8, q: Quirks, got: &J, path: &str) -> Result<(), String> {
+    let applies = match narrow {
+        b'a' => true,
+        b'u' => !quoted,
+        _ => false,
+    };
+    let show = || format!("{} scalar {:?} quoted={} narrowing={}", path, String::from_utf8_lossy(raw), quoted, narrow as char);
+    match got {
+        J::Str(s) => {
+            if s != text {
+                return Err(format!("{}: string {:?} differs from the decoded scalar {:?}", show(), s, text));
+            }
+            if applies {
+                if raw == b"yes" || raw == b"no" {
+                    return Err(format!("{}: boolean left as a string", show()));
+                }
+                if let Some(n) = num_shape(raw) {
+                    if n.clean && n.digits_int < EXACT {
+                        return Err(format!("{}: exactly representable number left as a string", show()));
+                    }
+                }
+            }
+            Ok(())
+        }
+        J::Bool(b) => {
+            if applies && ((*b && raw == b"yes") || (!*b && raw == b"no")) {
+                Ok(())
+            } else {
+                Err(format!("{}: became boolean {}", show(), b))
+            }
+        }
+        J::Num(tok) => {
+            if !applies {
+                return Err(format!("{}: narrowed to {} although narrowing does not apply", show(), tok));
+            }
+            if q.plus_is_zero && raw == b"+" && tok == "0" {
+                return Ok(());
+            }
+            let n = match num_shape(raw) {
+                Some(n) => n,
+                None => return Err(format!("{}: not a number but narrowed to {}", show(), tok)),
+            };
+            let is_float_tok = tok.bytes().any(|c| matches!(c, b'.' | b'e' | b'E'));
+            if !is_float_tok {
+                if n.has_dot {
+                    return Err(format!("{}: decimal became integer {}", show(), tok));
+                }
+                let v: i128 = tok.parse().map_err(|_| format!("{}: unreadable integer {}", show(), tok))?;
+                let expect = if n.neg { -(n.digits_int as i128) } else { n.digits_int as i128 };
+                if v != expect {
+                    return Err(format!("{}: integer {} is not the scalar's value", show(), tok));
+                }
+                if n.digits_int >= EXACT {
+                    return Err(format!("{}: integer {} is beyond what f64 holds exactly but was emitted as a number", show(), tok));
+                }
+                Ok(())
+            } else {
+                let v: f64 = tok.parse().map_err(|_| format!("{}: unreadable float {}", show(), tok))?;
+                if !v.is_finite() {
+                    return Err(format!("{}: non-finite float", show()));
+                }
+                let reference: f64 = n.body.parse().map_err(|_| format!("{}: reference cannot read {}", show(), n.body))?;
+                let reference = if n.neg { -reference } else { reference };
+                if v == 0.0 && reference == 0.0 {
+                    return Ok(());
+                }
+                if n.digits_int < EXACT {
+                    if v.to_bits() != reference.to_bits() {
+                        return Err(format!("{}: float {} is not the correctly rounded value {:e}", show(), tok, reference));
+                    }
+                } else {
+                    if !n.has_dot {
+                        return Err(format!("{}: inexact integer emitted as float {}", show(), tok));
+                    }
+                    if ulp_distance(v, reference) > 2 {
+                        return Err(format!("{}: float {} more than 2 ulp from {:e}", show(), tok, reference));
+                    }
+                }
+                Ok(())
+            }
+        }
+        other => Err(format!("{}: became {:?}", show(), other)),
+    }
+}
+
+fn matches(r: &Ref, got: &J, narrow: u8, q: Quirks, path: &str) -> Result<(), String> {
+    match (r, got) {
+        (Ref::Scalar { raw, text, quoted }, g) => check_scalar(raw, text, *quoted, narrow, q, g, path),
+        (Ref::Null, J::Null) => Ok(()),
+        (Ref::Str(a), J::Str(b)) if a == b => Ok(()),
+        (Ref::Arr(a), J::Arr(b)) => {
+            if a.len() != b.len() {
+                return Err(format!("{}: array of {} items, expected {}", path, b.len(), a.len()));
+            }
+            for (i, (x, y)) in a.iter().zip(b).enumerate() {
+                matches(x, y, narrow, q, &format!("{}[{}]", path, i))?;
+            }
+            Ok(())
+        }
+        (Ref::Obj(a), J::Obj(b)) => {
+            if a.len() != b.len() {
+                return Err(format!("{}: object of {} entries {:?}, expected {} {:?}", path, b.len(), b.iter().map(|x| &x.0).collect::<Vec<_>>(), a.len(), a.iter().map(|x| &x.0).collect::<Vec<_>>()));
+            }
+            for (i, ((ka, va), (kb, vb))) in a.iter().zip(b).enumerate() {
+                if ka != kb {
+                    return Err(format!("{}: entry {} has key {:?}, expected {:?}", path, i, kb, ka));
+                }
+                matches(va, vb, narrow, q, &format!("{}.{}", path, ka))?;
+            }
+            Ok(())
+        }
+        (r, g) => Err(format!("{}: got {:?}, expected {:?}", path, g, r)),
+    }
+}
+
+fn ref_entry<E: Encoding + Clone>(reader: &ObjectReader<E>, o: Opts, entry: &str, q: Quirks) -> Option<Ref> {
+    match entry {
+        "obj" => Some(ref_object(reader, o.dup, q, 0)),
+        "val" => {
+            let (_k, _op, v) = reader.fields().next()?;
+            Some(ref_value(&v, o.dup, q, 0))
+        }
+        "arr" => {
+            let (_k, _op, v) = reader.fields().next()?;
+            let a = v.read_array().ok()?;
+            Some(ref_array(&a, o.dup, q, 0))
+        }
+        _ => None,
+    }
+}
+
+// ---------------------------------------------------------------------------------------
+// exec
 
 pub fn exec(w: &[&str], obs: &mut Obs) -> Option<String> {
-    None
+    match w {
+        ["json", so, enc, entry, tape_s, h] => {
+            let o = Opts::parse(so)?;
+            if !matches!(*enc, "w" | "u") || !matches!(*entry, "obj" | "arr" | "val") {
+                return None;
+            }
+            let input = unhex(h)?;
+            let case = w.join(" ");
+            let tape = match TextTape::from_slice(&input) {
+                Ok(t) => t,
+                Err(_) => {
+                    obs.violation("stale-case", &case, "the input no longer parses");
+                    return Some("parse-error".to_string());
+                }
+            };
+            if show::text_tape(tape.tokens()) != *tape_s {
+                obs.violation("stale-case", &case, "the tape in the case line is not the tape the parser produces for the input");
+            }
+            obs.count(&format!("opts:{}", so));
+            obs.count(&format!("enc:{}", enc));
+            obs.count(&format!("entry:{}", entry));
+            let out = match run_enc(&tape, enc, o, entry) {
+                Some(x) => x,
+                None => {
+                    obs.count("result:na");
+                    return Some("na".to_string());
+                }
+            };
+            obs.count("result:json");
+            // (1) validity
+            let tree = match parse_json(&out) {
+                Ok(t) => Some(t),
+                Err(e) => {
+                    obs.violation("invalid-json", &case, &format!("{} in {:?}", e, String::from_utf8_lossy(&out)));
+                    None
+                }
+            };
+            // (2) pretty printing changes whitespace only
+            let twin = Opts { pretty: !o.pretty, ..o };
+            if let Some(other) = run_enc(&tape, enc, twin, entry) {
+                let (p, m) = if o.pretty { (&out, &other) } else { (&other, &out) };
+                if strip_ws(p) != *m {
+                    obs.violation("pretty-not-whitespace-only", &case, &format!("pretty {:?} minified {:?}", String::from_utf8_lossy(p), String::from_utf8_lossy(m)));
+                }
+            }
+            // (3) content
+            if let Some(tree) = &tree {
+                let reference = |q: Quirks| if *enc == "w" { ref_entry(&tape.windows1252_reader(), o, entry, q) } else { ref_entry(&tape.utf8_reader(), o, entry, q) };
+                if let Some(r) = reference(Quirks::default()) {
+                    if let Err(e) = matches(&r, tree, o.narrow, Quirks::default(), "$") {
+                        // which of the recorded behaviours of the code explains the output?
+                        let explained = Quirks::subsets().into_iter().find(|q| reference(*q).map(|r| matches(&r, tree, o.narrow, *q, "$").is_ok()).unwrap_or(false));
+                        match explained {
+                            Some(q) => {
+                                for k in q.kinds() {
+                                    // keep a few witnesses per recorded behaviour (the list of violations is capped),
+                                    // count every occurrence
+                                    obs.count(&format!("quirk:{}", k));
+                                    if witness_slot(k) {
+                                        obs.violation(k, &case, &format!("{} ; output {:?}", e, String::from_utf8_lossy(&out)));
+                                    }
+                                }
+                            }
+                            None => obs.violation(content_kind(&e), &case, &format!("{} ; output {:?}", e, String::from_utf8_lossy(&out))),
+                        }
+                    }
+                }
+                count_shapes(tree, obs);
+            }
+            Some(hex(&canon_floats(&out)))
+        }
+        // the tape of an accepted input must satisfy the model's well-formedness hypothesis (the driver
+        // evaluates `wfTapeB` and compares the model's conversion with `jsonOfDoc` of the witness tree)
+        ["wf", tape_s, h] => {
+            let input = unhex(h)?;
+            let case = w.join(" ");
+            match TextTape::from_slice(&input) {
+                Ok(t) => {
+                    if show::text_tape(t.tokens()) != *tape_s {
+                        obs.violation("stale-case", &case, "the tape in the case line is not the tape the parser produces for the input");
+                    }
+                    Some("wf".to_string())
+                }
+                Err(_) => {
+                    obs.violation("stale-case", &case, "the input no longer parses");
+                    Some("parse-error".to_string())
+                }
+            }
+        }
+        // implementation-only: all 108 combinations of one input must not panic and must be valid
+        ["x-json-all", h] => {
+            let input = unhex(h)?;
+            let case = w.join(" ");
+            let tape = TextTape::from_slice(&input).ok()?;
+            for o in Opts::all() {
+                for enc in ["w", "u"] {
+                    for entry in ["obj", "arr", "val"] {
+                        match guard(|| run_enc(&tape, enc, o, entry)) {
+                            Err(_) => obs.violation("panic", &case, &format!("opts {} enc {} entry {}", o.show(), enc, entry)),
+                            Ok(Some(out)) => {
+                                if let Err(e) = parse_json(&out) {
+                                    obs.violation("invalid-json", &case, &format!("opts {} enc {} entry {}: {}", o.show(), enc, entry, e));
+                                }
+                            }
+                            Ok(None) => {}
+                        }
+                    }
+                }
+            }
+            Some("ok".to_string())
+        }
+        _ => None,
+    }
+}
+
+static QUIRK_WITNESSES: [std::sync::atomic::AtomicUsize; 3] = [std::sync::atomic::AtomicUsize::new(0), std::sync::atomic::AtomicUsize::new(0), std::sync::atomic::AtomicUsize::new(0)];
+
+/// the first 8 occurrences of each recorded behaviour are kept as witnesses
+fn witness_slot(kind: &str) -> bool {
+    let i = match kind { "group-keyed-by-raw-bytes" => 0, "plus-sign-narrowed-to-zero" => 1, _ => 2 };
+    QUIRK_WITNESSES[i].fetch_add(1, std::sync::atomic::Ordering::Relaxed) < 8
+}
+
+fn content_kind(e: &str) -> &'static str {
+    if e.contains("scalar") { "content-scalar" } else { "content-structure" }
+}
+
+fn count_shapes(t: &J, obs: &mut Obs) {
+    match t {
+        J::Null => obs.count("json:null"),
+        J::Bool(_) => obs.count("json:bool"),
+        J::Num(s) => obs.count(if s.bytes().any(|c| matches!(c, b'.' | b'e' | b'E')) { "json:float" } else { "json:int" }),
+        J::Str(s) => obs.count(if s.is_ascii() { "json:str" } else { "json:str-nonascii" }),
+        J::Arr(v) => {
+            obs.count("json:arr");
+            for x in v {
+                count_shapes(x, obs);
+            }
+        }
+        J::Obj(v) => {
+            obs.count("json:obj");
+            for (k, x) in v {
+                if k == "remainder" {
+                    obs.count("json:remainder");
+                }
+                count_shapes(x, obs);
+            }
+        }
+    }
+}
+
+// ---------------------------------------------------------------------------------------
+// gen
+
+fn emit(g: &mut Gen, input: &[u8], o: Opts, enc: &str, entry: &str) -> bool {
+    match TextTape::from_slice(input) {
+        Ok(t) => {
+            g.emit(format!("json {} {} {} {} {}", o.show(), enc, entry, show::text_tape(t.tokens()), hex(input)));
+            true
+        }
+        Err(_) => false,
+    }
+}
+
+fn emit_all(g: &mut Gen, input: &[u8]) -> bool {
+    let t = match TextTape::from_slice(input) {
+        Ok(t) => t,
+        Err(_) => return false,
+    };
+    let ts = show::text_tape(t.tokens());
+    let h = hex(input);
+    g.emit(format!("wf {} {}", ts, h));
+    for o in Opts::all() {
+        for enc in ["w", "u"] {
+            for entry in ["obj", "arr", "val"] {
+                g.emit(format!("json {} {} {} {} {}", o.show(), enc, entry, ts, h));
+            }
+        }
+    }
+    true
+}
+
+/// a few random combinations, always including one `obj`
+fn emit_some(g: &mut Gen, input: &[u8], k: usize) -> bool {
+    let t = match TextTape::from_slice(input) {
+        Ok(t) => t,
+        Err(_) => return false,
+    };
+    let ts = show::text_tape(t.tokens());
+    let h = hex(input);
+    g.emit(format!("wf {} {}", ts, h));
+    let all = Opts::all();
+    for i in 0..k {
+        let o = *g.rng.pick(&all);
+        let enc = if g.rng.chance(1, 2) { "w" } else { "u" };
+        let entry = if i == 0 { "obj" } else { *g.rng.pick(&["obj", "arr", "val"]) };
+        g.emit(format!("json {} {} {} {} {}", o.show(), enc, entry, ts, h));
+    }
+    true
+}
+
+fn number_scalars() -> Vec<Vec<u8>> {
+    let mut v: Vec<Vec<u8>> = vec![];
+    let centers: [u128; 9] = [0, 1, (1 << 53) - 1, 1 << 53, (1 << 63) - 1, 1 << 63, (1u128 << 64) - 1, 1u128 << 64, 1u128 << 32];
+    for c in centers {
+        for d in -1i64..=1 {
+            let x = if d < 0 { c.saturating_sub((-d) as u128) } else { c + d as u128 };
+            for prefix in ["", "-", "+", "0", "-+"] {
+                v.push(format!("{}{}", prefix, x).into_bytes());
+            }
+            let txt = x.to_string();
+            for k in [1usize, 3, 15, 16, 17, 22, 23] {
+                let f = if txt.len() > k { format!("{}.{}", &txt[..txt.len() - k], &txt[txt.len() - k..]) } else { format!("0.{}{}", "0".repeat(k - txt.len()), txt) };
+                v.push(f.clone().into_bytes());
+                v.push(format!("-{}", f).into_bytes());
+            }
+        }
+    }
+    for s in [
+        "yes", "no", "Yes", "NO", "yess", "n", "1.0", "1.000", "-0", "-0.0", "0.0", "1.", ".5", "-.5", "+.5", ".", "-", "+", "1e5", "1E5", "0x10", "1.2.3", "1444.11.11",
+        "3.14", "0.1", "0.30000000000000004", "123456789.123456789", "0.0000000000000000000001", "0.00000000000000000000001", "9007199254740993.5", "18446744073709547616",
+        "-90071992547409097", "1_000", "1,5", "١٢٣", "12a", "a12", "inf", "nan", "NaN", "-inf", "1.7976931348623157e308",
+    ] {
+        v.push(s.as_bytes().to_vec());
+    }
+    v
+}
+
+pub fn gen(g: &mut Gen) {
+    let narrow_opts: Vec<Opts> = (*b"aun").iter().map(|n| Opts { pretty: false, dup: b'p', narrow: *n }).collect();
+
+    // 1. fixed documents from the repository's own tests and the shapes the serializer branches on: all 108 combinations
+    let fixed: Vec<&[u8]> = vec![
+        b"", b"foo=bar", b"foo=bar num=1 bool=no bool2=yes pi=3.14", b"foo={prop=a bar={num=1}}", b"nums={1 2 3 4}",
+        b"core=AAA core=BBB", b"color = rgb { 100 200 150 }", b"identity = 18446744073709547616", b"identity = -90071992547409097",
+        b"area = { color = { 10 } 1 2 }", b"levels={ 10 0=2 1=2 }", b"mixed={ a=b 10 c=d 20 }",
+        b"on_actions = {\n faith_holy_order_land_acquisition_pulse\n delay = { days = { 5 10 }}\n faith_heresy_events_pulse\n delay = { days = { 15 20 }}\n faith_fervor_events_pulse\n }",
+        b"generate_advisor = { [[scaled_skill] a=b ] [[!scaled_skill] c=d ]  }", b"foo = { [[add] $add$]}",
+        b"a={b=1} c={b=1 b=2}", b"c=0 b={1 2}", br#"a="01" b=02 c="yes" d=no"#, b"a > 1 b < 2 c >= 3 d <= 4 e != 5 f == 6 g ?= 7",
+        b"a = { b > 1 b < 2 b = 3 }", b"a = { 1 b > 2 c = hsv { 1 2 3 } }", b"a = { rgb { 1 2 3 } }", b"a = { x rgb { 1 2 3 } y }", b"a = hsv { 0.5 0.5 0.5 } a = rgb { 1 2 3 }",
+        b"a = {} b = { } c = { {} }", b"a = { { 1 } { 2 } }", b"a = { {b=1} {c=2} }", b"{} a=b", b"a={ {} b=c }", b"a = b = c", b"a = { b = { c = { d = { e = f } } } }",
+        b"name=a core=b core=c name=d core=e", b"\"a\"=1 a=2 \"a \"=3", b"a=1 a={ [[a] b=c ] a=2 [[!a] d=e ] }", b"k=LIST { a=b c=d }", b"k={ a=b LIST { 1 2 } }",
+        b"k = { a = b c }", b"k = { a b = c }", b"k = { a = { b } c d = e }", b"k = { 1 = 2 3 = 4 5 }", b"k = { a=1 b c=2 }", b"b = 3]0 c = {} d = rgb { 1 }", b"mixed={ a=b 10 color = rgb { 1 2 3 } }", b"a < e = 1 b = rgb { 1 }", b"x={ a=1 [ b=2 c }",
+    ];
+    for f in &fixed {
+        if !emit_all(g, f) {
+            g.count("fixed:rejected");
+        }
+        g.emit(format!("x-json-all {}", hex(f)));
+    }
+    g.count("fixed-documents");
+
+    // 2. scalar narrowing: number-looking scalars, booleans, quoted twins; as field value, array element, key
+    for s in number_scalars() {
+        let st = String::from_utf8_lossy(&s).to_string();
+        let docs = [format!("k={}", st), format!("k=\"{}\"", st), format!("k={{ {} \"{}\" }}", st, st), format!("{}=v", st), format!("k > {}", st)];
+        for (di, d) in docs.iter().enumerate() {
+            for o in &narrow_opts {
+                for enc in ["w", "u"] {
+                    if enc == "u" && di >= 2 {
+                        continue;
+                    }
+                    if !emit(g, d.as_bytes(), *o, enc, "obj") {
+                        g.count("scalar-doc:rejected");
+                    }
+                }
+            }
+        }
+        for o in &narrow_opts {
+            emit(g, docs[0].as_bytes(), *o, "w", "val");
+            emit(g, docs[2].as_bytes(), Opts { dup: b'k', pretty: true, ..*o }, "u", "arr");
+        }
+    }
+    g.count("number-scalars");
+
+    // 3. every byte inside a quoted and an unquoted scalar (decoding + escaping), both encodings
+    for b in 0u16..256 {
+        let b = b as u8;
+        let mut q = b"k=\"a".to_vec();
+        q.push(b);
+        q.extend_from_slice(b"z\" \"q");
+        q.push(b);
+        q.extend_from_slice(b"\"=x");
+        let mut u = b"k=a".to_vec();
+        u.push(b);
+        u.extend_from_slice(b"z ");
+        let mut t = b"k=\"a".to_vec();
+        t.push(b);
+        t.extend_from_slice(b"\" j=\"");
+        t.push(b);
+        t.push(b' ');
+        t.extend_from_slice(b"\"");
+        for d in [&q, &u, &t] {
+            for enc in ["w", "u"] {
+                emit(g, d, Opts { pretty: false, dup: b'p', narrow: b'a' }, enc, "obj");
+                emit(g, d, Opts { pretty: true, dup: b'g', narrow: b'n' }, enc, "obj");
+            }
+        }
+    }
+    // two- and three-byte sequences around UTF-8 lead / continuation / backslash / whitespace
+    let interesting: &[u8] = &[b'a', b' ', b'\n', b'\\', b'"', 0x7f, 0x80, 0xbf, 0xc2, 0xc3, 0xa9, 0xe0, 0xa0, 0xed, 0x9f, 0xef, 0xbb, 0xf0, 0x90, 0xf4, 0x8f, 0xf5, 0xff, 0x1f, 0x00];
+    for &x in interesting {
+        for &y in interesting {
+            let mut d = b"k=\"".to_vec();
+            d.push(x);
+            d.push(y);
+            d.extend_from_slice(b"\"");
+            emit(g, &d, Opts { pretty: false, dup: b'p', narrow: b'n' }, "u", "obj");
+            emit(g, &d, Opts { pretty: false, dup: b'p', narrow: b'n' }, "w", "obj");
+        }
+    }
+    let n3 = g.budget(1500, 20000);
+    for _ in 0..n3 {
+        let len = g.rng.range(1, 6);
+        let mut d = b"k=\"".to_vec();
+        for _ in 0..len {
+            d.push(*g.rng.pick(interesting));
+        }
+        d.extend_from_slice(b"\"");
+        let enc = if g.rng.chance(2, 3) { "u" } else { "w" };
+        emit(g, &d, Opts { pretty: false, dup: b'p', narrow: b'a' }, enc, "obj");
+    }
+    g.count("byte-sweeps");
+
+    // 4. model documents under random layouts
+    let cfg = docgen::DocCfg::text_full();
+    let lay = docgen::LayoutCfg::full();
+    let ndocs = g.budget(1200, 20000);
+    for i in 0..ndocs {
+        let doc = docgen::gen_doc(&mut g.rng, &cfg);
+        let lex = docgen::lexemes(&doc);
+        let txt = if i % 4 == 0 { docgen::render_canonical(&lex) } else { docgen::render_layout(&mut g.rng, &lay, &lex) };
+        let ok = if i < g.budget(60, 400) { emit_all(g, &txt) } else { emit_some(g, &txt, 6) };
+        if ok { g.count("docgen:accepted"); } else { g.count("docgen:rejected"); }
+        if i % 10 == 0 {
+            g.emit(format!("x-json-all {}", hex(&txt)));
+        }
+    }
+    // deeper / wider documents
+    let deep = docgen::DocCfg { max_depth: 12, max_fields: 8, ..docgen::DocCfg::text_full() };
+    let ndeep = g.budget(100, 2000);
+    for _ in 0..ndeep {
+        let doc = docgen::gen_doc(&mut g.rng, &deep);
+        let txt = docgen::render_canonical(&docgen::lexemes(&doc));
+        if emit_some(g, &txt, 4) { g.count("docgen-deep:accepted"); } else { g.count("docgen-deep:rejected"); }
+    }
+
+    // 5. arbitrary accepted input: mutations of documents and random text over the significant alphabet
+    let nmut = g.budget(6000, 120000);
+    let mut acc = 0usize;
+    for i in 0..nmut {
+        let txt = if i % 3 == 0 {
+            docgen::random_text(&mut g.rng, 24)
+        } else {
+            let doc = docgen::gen_doc(&mut g.rng, &cfg);
+            let base = docgen::render_canonical(&docgen::lexemes(&doc));
+            docgen::mutate(&mut g.rng, &base, docgen::TEXT_ALPHABET)
+        };
+        if emit_some(g, &txt, 3) {
+            acc += 1;
+            g.count("arbitrary:accepted");
+            if acc % 5 == 0 {
+                g.emit(format!("x-json-all {}", hex(&txt)));
+            }
+        } else {
+            g.count("arbitrary:rejected");
+        }
+    }
+    // random text over a small structural alphabet (operators, braces, brackets, headers) – dense in odd shapes
+    let alpha: &[&[u8]] = &[b"a", b"b", b"1", b"=", b"{", b"}", b" ", b" ", b">", b"<=", b"?=", b"rgb", b"hsv", b"[[", b"]", b"!", b"\"x\"", b"yes", b"{}", b"@[", b"\\"];
+    let nsmall = g.budget(6000, 120000);
+    for _ in 0..nsmall {
+        let n = g.rng.range(1, 14);
+        let mut txt = vec![];
+        for _ in 0..n {
+            let piece: &[u8] = *g.rng.pick(alpha);
+            txt.extend_from_slice(piece);
+            if g.rng.chance(1, 2) { txt.push(b' '); }
+        }
+        if emit_some(g, &txt, 3) { g.count("structural:accepted"); } else { g.count("structural:rejected"); }
+    }
 }
 
 pub fn tables() -> String {
